@@ -9,6 +9,8 @@ CONSTANTS
     CHi = 3
     Ks = {2}
     Ordered = TRUE
+    Adjacent = FALSE
+    FixCutoff = FALSE
     Replay = TRUE
     RMod = 4
 SPECIFICATION Spec
